@@ -216,7 +216,8 @@ def kf_matches(entry, pid, v):
 
 
 def write_replay(pid, v):
-  d = os.path.join(VERIF, "replays", pid)
+  d = os.path.join(os.environ.get("GFAMC_REPLAY_DIR") or
+                   os.path.join(VERIF, "replays"), pid)
   os.makedirs(d, exist_ok=True)
   fp = fingerprint(v["clause"], v["key"])
   path = os.path.join(d, fp + ".json")
@@ -323,7 +324,7 @@ def write_evidence(ctx, matched, unmatched, known):
         "level": "model_checking", "coverage": cov,
         "assumptions": ctx.assumptions, "wall_s": round(ctx.elapsed(), 2),
         "violations": len(unmatched)}
-  d = os.path.join(VERIF, "evidence")
+  d = os.environ.get("GFAMC_EVIDENCE_DIR") or os.path.join(VERIF, "evidence")
   os.makedirs(d, exist_ok=True)
   with open(os.path.join(d, ctx.pid + ".json"), "w") as f:
     json.dump(ev, f, indent=1, default=repr, sort_keys=True)
